@@ -168,6 +168,7 @@ type Sim struct {
 	healing      bool
 	resolverSent bool
 	keySeq       uint64
+	conc         bool // currently executing concurrently (burst); false in serial plans and after the burst
 	stop         bool
 	addrSets     [][]resolver.Address
 	Opts         Options
@@ -278,9 +279,9 @@ func (s *Sim) run() {
 	s.cc = &FakeCC{env: s.env}
 	k.Install()
 	defer k.Uninstall()
-	if !s.plan.Concurrent {
-		s.model = NewModel(s)
-	}
+	s.conc = s.plan.Concurrent
+	s.model = NewModel(s)
+	s.model.track = s.conc // concurrent burst: structural tracking only, no verdicts
 	s.addrSets = [][]resolver.Address{
 		{{Addr: "a:1"}},
 		{{Addr: "a:1"}, {Addr: "b:2"}},
@@ -361,7 +362,7 @@ func (s *Sim) settle() { s.k.Quiesce() }
 func (s *Sim) afterOp() {
 	s.drain()
 	s.checkKernel()
-	if !s.plan.Concurrent {
+	if !s.conc {
 		s.checkQuiescent()
 	} else if !s.stop && !s.k.HasRunnable() {
 		s.checkDeadlock()
@@ -392,9 +393,8 @@ func (s *Sim) drain() {
 		if ev.Kind == EvPanic {
 			s.panicViolation(ev)
 		}
-		if s.model != nil {
-			s.model.On(ev)
-		} else {
+		s.model.On(ev)
+		if s.conc {
 			s.safety(ev)
 		}
 	}
@@ -587,7 +587,7 @@ func (s *Sim) guard(fn func()) (note string) {
 
 //go:norace
 func (s *Sim) stepsAfter(o Op) {
-	if s.plan.Concurrent {
+	if s.conc {
 		s.k.RunSteps(o.N)
 	} else {
 		s.k.Quiesce()
@@ -1045,7 +1045,7 @@ func (s *Sim) finishCall(i int, c *Call, outcome int, replyKeys []string) {
 	switch outcome {
 	case OutClientDE:
 		if c.HasDeadline && c.Deadline > now {
-			if s.plan.Concurrent {
+			if s.conc {
 				c.Outcome = OutServerDE
 			} else {
 				s.k.Advance(c.Deadline - now)
@@ -1081,6 +1081,101 @@ func (s *Sim) heal() {
 	if s.stop {
 		return
 	}
+	s.healConnsAndCalls(i)
+	if s.stop || len(s.env.Pubs) == 0 {
+		return
+	}
+	if s.conc {
+		s.healConcurrent(i)
+		if s.stop || !s.enterSerial() {
+			return
+		}
+		// Post-burst serial conformance: whatever interleaving the burst took, the
+		// pool must afterwards behave by the statements again. A short serial
+		// suffix (fresh affinity keys only) is executed with the full model.
+		for j, o := range s.plan.Suffix {
+			if s.stop || s.k.Aborting() {
+				return
+			}
+			s.opIdx = len(s.plan.Ops) + 1 + j
+			s.src.Segment(len(s.plan.Ops) + 2 + j)
+			s.exec(s.opIdx, o)
+			s.afterOp()
+		}
+		if s.stop {
+			return
+		}
+		s.res.Count("post_burst_suffix_done", 1)
+		i = len(s.plan.Ops) + 1 + len(s.plan.Suffix)
+		s.opIdx = i
+		s.src.Segment(i + 1)
+		s.healConnsAndCalls(i)
+		if s.stop {
+			return
+		}
+	}
+	s.res.Count("heal_reached", 1)
+	// Probe 1 (C01): every bound key goes home on the latest picker.
+	keys := make([]string, 0, len(s.model.keys))
+	for k := range s.model.keys {
+		keys = append(keys, k)
+	}
+	sortStrings(keys)
+	var probes []*Call
+	for _, k := range keys {
+		if k == "" || s.stop {
+			continue
+		}
+		c := s.probeCall(i, MBound, []string{k})
+		probes = append(probes, c)
+	}
+	// Probe 2 (C02): with nothing in flight, held plain calls fill channels evenly.
+	for _, c := range probes {
+		if c.InFlight && !s.stop {
+			s.finishCall(i, c, OutAppErr, nil)
+			s.k.Quiesce()
+			s.afterOp()
+		}
+	}
+	if s.stop {
+		return
+	}
+	for _, ch := range s.model.chans {
+		if ch.inflight != 0 {
+			s.res.Harness = fmt.Sprintf("heal: model channel %d still has %d in flight", ch.idx, ch.inflight)
+			return
+		}
+	}
+	n := len(s.model.readyList())
+	if n == 0 {
+		return
+	}
+	total := 2 * n
+	if s.model.cfg.wm <= 3 {
+		total = s.model.cfg.wm * n
+	}
+	var held []*Call
+	for j := 0; j < total && !s.stop; j++ {
+		held = append(held, s.probeCall(i, MPlain, nil))
+	}
+	if !s.stop {
+		s.res.Count("heal_fill_probe_done", 1)
+	}
+	for _, c := range held {
+		if c.InFlight && !s.stop {
+			s.finishCall(i, c, OutAppErr, nil)
+			s.k.Quiesce()
+			s.afterOp()
+		}
+	}
+}
+
+// healConnsAndCalls drives every live connection to READY through legal
+// transitions, checks that no round-robin BIND still waits, cancels waiting
+// picks and completes every call.
+//
+//go:norace
+func (s *Sim) healConnsAndCalls(i int) {
 	// drive every live connection to READY
 	for round := 0; round < 6 && !s.stop; round++ {
 		progress := false
@@ -1152,67 +1247,41 @@ func (s *Sim) heal() {
 			s.afterOp()
 		}
 	}
-	if s.stop || len(s.env.Pubs) == 0 {
-		return
-	}
-	if s.model == nil {
-		s.healConcurrent(i)
-		return
-	}
-	s.res.Count("heal_reached", 1)
-	// Probe 1 (C01): every bound key goes home on the latest picker.
-	keys := make([]string, 0, len(s.model.keys))
-	for k := range s.model.keys {
-		keys = append(keys, k)
-	}
-	sortStrings(keys)
-	var probes []*Call
-	for _, k := range keys {
-		if k == "" || s.stop {
-			continue
-		}
-		c := s.probeCall(i, MBound, []string{k})
-		probes = append(probes, c)
-	}
-	// Probe 2 (C02): with nothing in flight, held plain calls fill channels evenly.
-	for _, c := range probes {
-		if c.InFlight && !s.stop {
-			s.finishCall(i, c, OutAppErr, nil)
-			s.k.Quiesce()
-			s.afterOp()
-		}
-	}
-	if s.stop {
-		return
-	}
-	for _, ch := range s.model.chans {
+}
+
+// enterSerial switches from the concurrent burst to serial execution with the
+// full model: every call has completed (in-flight counts are zero by
+// construction), bindings made during the burst are unknown to the model
+// (concurrent BIND completions have no defined order) and are never used again:
+// the suffix uses fresh keys.
+//
+//go:norace
+func (s *Sim) enterSerial() bool {
+	m := s.model
+	for _, ch := range m.chans {
 		if ch.inflight != 0 {
-			s.res.Harness = fmt.Sprintf("heal: model channel %d still has %d in flight", ch.idx, ch.inflight)
-			return
+			return false // a call could not be completed: nothing to judge
 		}
 	}
-	n := len(s.model.readyList())
-	if n == 0 {
-		return
-	}
-	total := 2 * n
-	if s.model.cfg.wm <= 3 {
-		total = s.model.cfg.wm * n
-	}
-	var held []*Call
-	for j := 0; j < total && !s.stop; j++ {
-		held = append(held, s.probeCall(i, MPlain, nil))
-	}
-	if !s.stop {
-		s.res.Count("heal_fill_probe_done", 1)
-	}
-	for _, c := range held {
-		if c.InFlight && !s.stop {
-			s.finishCall(i, c, OutAppErr, nil)
-			s.k.Quiesce()
-			s.afterOp()
+	for _, c := range s.calls {
+		if c.Invoked && !c.Returned {
+			return false
 		}
 	}
+	now := s.k.Elapsed()
+	for _, ch := range m.chans {
+		ch.lastResp[0], ch.lastResp[1] = now, now
+		ch.de[0], ch.de[1] = 0, 0
+		ch.k[0], ch.k[1] = 0, 0
+		ch.keys = 0
+	}
+	m.keys = map[string]int{}
+	m.fb = map[string]int{}
+	m.rrSeq = nil
+	m.epoch++
+	m.track = false
+	s.conc = false
+	return true
 }
 
 // healConcurrent: after a concurrent run has quiesced and every call has
